@@ -831,6 +831,16 @@ class Interp:
         for t in st.targets:
             if isinstance(t, ast.Subscript):
                 c = self.eval(t.value, env, module)
+                if isinstance(t.slice, ast.Slice):
+                    lo = self.eval(t.slice.lower, env, module) if t.slice.lower else None
+                    hi = self.eval(t.slice.upper, env, module) if t.slice.upper else None
+                    stp = self.eval(t.slice.step, env, module) if t.slice.step else None
+                    if isinstance(c, list) and not any(isinstance(x, Unknown) for x in (lo, hi, stp)):
+                        del c[lo:hi:stp]
+                        continue
+                    if isinstance(c, Unknown):
+                        continue
+                    raise Imprecise(f"del of a slice of {type(c).__name__} at {module.rel}:{st.lineno}")
                 k = self.eval(t.slice, env, module)
                 if isinstance(c, (dict, list)):
                     try:
